@@ -308,6 +308,9 @@ pub fn execute(sc: &NScenario, full_sweep_every_feed: bool) -> NReport {
         if h % 8 == 1 {
             crate::diag_n::header_checks(h, &mut fs, &mut |k| hits.push(k), &mut q);
         }
+        if h % 8 == 3 {
+            crate::diag_n::front_end_error_checks(h, &mut fs, &mut |k| hits.push(k), &mut q);
+        }
         if h % 16 == 2 {
             let mut kn = vec![];
             crate::diag_n::action_error_checks(h, &scratch_base().join("act"), &mut fs, &mut kn, &mut |k| hits.push(k), &mut q);
@@ -955,7 +958,7 @@ pub fn check_main(tier: &str) -> i32 {
         seed,
         evaluations: count,
         distinct_nontrivial: t.digests.len() as u64,
-        rule: format!("history i of stream VERIF_SEED: text of <= {max_bytes} bytes over {{a b space LF CR CRLF 2/3/4-byte chars}} cut at PRNG-chosen character boundaries (empty chunks, CR|LF cuts, cut after newline); after every feed all character-boundary offsets are queried, all spans after the last feed (and after every feed for one history in four); on the final text: the real lexer's own cache, pretty-printed lexing and parse errors, single-span underlines, six multi-span (2-4 spans) warnings, and for one text in eight the conflict report of one of six ambiguous grammars laid out over several lines from the text's hash, and for another eighth the error for an array-valued `recoverer` entry of a %grmtools section laid out over several lines (parse, merge, RecoveryKind::try_from, format_error: reported at the opening bracket). Then {np_cases} generated lexer / grammar pairs with differing token sets go through the nimbleparse binary: every echoed `N| text` line of its report must be line N of the file the block names and every underline must sit under a token the block is about (half of the lexer files start with a %grmtools section, four in ten use target states, grammars re-name a declared token in %avoid_insert, and 15% of the cases are lexers rejected for a start state declared twice, with trailing blanks). For one text in sixteen CTParserBuilder is given an action with an unknown `$` substitution and must locate it. Non-trivial = at least two chunks; distinct = distinct chunk sequence."),
+        rule: format!("history i of stream VERIF_SEED: text of <= {max_bytes} bytes over {{a b space LF CR CRLF 2/3/4-byte chars}} cut at PRNG-chosen character boundaries (empty chunks, CR|LF cuts, cut after newline); after every feed all character-boundary offsets are queried, all spans after the last feed (and after every feed for one history in four); on the final text: the real lexer's own cache, pretty-printed lexing and parse errors, single-span underlines, six multi-span (2-4 spans) warnings, and for one text in eight the conflict report of one of six ambiguous grammars laid out over several lines from the text's hash, and for another eighth the error for an array-valued `recoverer` entry of a %grmtools section laid out over several lines (parse, merge, RecoveryKind::try_from, format_error: reported at the opening bracket). Then {np_cases} generated lexer / grammar pairs with differing token sets go through the nimbleparse binary: every echoed `N| text` line of its report must be line N of the file the block names and every underline must sit under a token the block is about (half of the lexer files start with a %grmtools section, four in ten use target states, grammars re-name a declared token in %avoid_insert, and 15% of the cases are lexers rejected for a start state declared twice, with trailing blanks). One text in eight draws a grammar or a lexer that its front end rejects (duplicate declarations of every kind, a rule name used twice; LF and CRLF line ends): rendering each error must not panic, echo the right lines and underline the duplicated name. For one text in sixteen CTParserBuilder is given an action with an unknown `$` substitution and must locate it. Non-trivial = at least two chunks; distinct = distinct chunk sequence."),
         samples: t.samples.clone(),
         extra,
         assumptions: vec!["offsets and spans on character boundaries only (as the property states)".into(), "newline = LF; a lone CR is an ordinary character".into()],
